@@ -131,3 +131,42 @@ Definition auto_group (s : storage) (cplx : bool) (A : cmat) (rows : list auto_r
   let fh := matrix_is_hermitian a in let fy := matrix_is_symmetric a in
   let fp := diag_pos A in let fn := diag_neg A in
   forallb (auto_row_ok fs fq fd cplx fh fy fp fn) rows.
+
+(* ------------------------------------------------------------------ the tolerance of np.allclose made explicit
+   np.allclose(x, 0) is  |x| <= atol  entry by entry (atol = 1e-8; the relative part vanishes against a zero reference).
+   All atoms whose reference is zero are stated exactly:  the three "off-diagonal part is zero" atoms (for the dense
+   one the reference np.diag(np.diag(A)) is zero off the diagonal and equals A on it) and the sparse symmetric /
+   Hermitian atoms ((A - A.T).data, (A - A.T.conj()).data against 0).  Moduli are compared through their squares.
+   The dense symmetric / Hermitian atoms (np.allclose(A, A.T): relative part 1e-5 |A.T| present) keep the exact
+   reading; magnitude effects there are covered by the implementation-side oracle only. *)
+Definition atol8 : Q := 1 # 100000000.
+Definition cabs2 (z : C) : Q := fst z * fst z + snd z * snd z.
+Definition c_within (tol : Q) (z : C) : bool := Qle_bool (cabs2 z) (tol * tol).
+Definition offdiag_within (tol : Q) (A : cmat) : bool :=
+  forallb (fun i => forallb (fun j => Nat.eqb i j || c_within tol (mget A i j)) (seq 0 (ncols A))) (seq 0 (length A)).
+Definition diff_within (tol : Q) (A B : cmat) : bool :=
+  list_all2 (list_all2 (fun a b => c_within tol (csub a b))) A B.
+
+Definition atoms_of_tol (tol : Q) (s : storage) (cplx : bool) (A : cmat) : atoms :=
+  let od := offdiag_within tol A in
+  {| at_sparse := st_sparse s; at_cvxopt := false; at_isdia := st_isdia s; at_offsets := st_offsets s;
+     at_cplxobj := cplx; at_cvx_z := false;
+     at_sp_offdiag0 := od; at_cvx_offdiag0 := od; at_dn_offdiag0 := od;
+     at_sp_sym := diff_within tol A (mtrans A); at_cvx_sym := m_symmetric A; at_dn_sym := m_symmetric A;
+     at_sp_herm := diff_within tol A (mtrans (mconj A)); at_cvx_herm := m_hermitian A; at_dn_herm := m_hermitian A |}.
+
+Definition auto_on_tol (tol : Q) (s : storage) (cplx : bool) (A : cmat) (hp hs hc : bool)
+           (o_diag o_herm o_sym o_pd : option bool) : solver_kind :=
+  let a := atoms_of_tol tol s cplx A in
+  auto_solver (matrix_is_sparse a) (m_square_shape A) (matrix_is_diagonal a) cplx (matrix_is_hermitian a)
+              (matrix_is_symmetric a) (diag_pos A) (diag_neg A) hp hs hc o_diag o_herm o_sym o_pd.
+
+(* [diagonal; symmetric; Hermitian] with the tolerance explicit (symmetric / Hermitian: sparse containers) *)
+Definition mc_flags_tol (tol : Q) (s : storage) (cplx : bool) (A : cmat) : list bool :=
+  let a := atoms_of_tol tol s cplx A in
+  [matrix_is_diagonal a; matrix_is_symmetric a; matrix_is_hermitian a].
+
+(* entries that are (Gaussian) integers: what the exact reading of the correspondence relies on *)
+Definition q_integer (x : Q) : bool := Pos.eqb (Qden x) 1.
+Definition c_integer (z : C) : bool := q_integer (fst z) && q_integer (snd z).
+Definition m_integer (A : cmat) : bool := forallb (forallb c_integer) A.
